@@ -242,8 +242,11 @@ def diff_outputs(go_out, ml_out):
         if line.startswith("ERROR"):
             bad.append((None, "", line))
         elif line.strip():
-            o = parse_obs(line)
-            m[o[0]] = (o, line)
+            try:
+                o = parse_obs(line)
+                m[o[0]] = (o, line)
+            except Exception as e:
+                bad.append((None, "", "unparsable model line: %s (%s)" % (line[:200], e)))
     diffs = []
     for k in sorted(set(g) | set(m)):
         if k not in g:
